@@ -109,6 +109,40 @@ def describe(s):
             "common": [t.name for t in m.common_terms], "group": [t.name for t in m.group_terms]}
 
 
+def describe_direct(s):
+    """the same names through Scanner -> Parser -> Resolver called directly (what model_description
+    is documented to do), for the history check: the public entry point must read every string
+    from its own characters, whatever it has read before"""
+    from formulae.parser import Parser
+    from formulae.resolver import Resolver
+    from formulae.scanner import Scanner
+    from formulae.terms.terms import Model
+    try:
+        m = Resolver(Parser(Scanner(s).scan()).parse()).resolve()
+        if not isinstance(m, Model):
+            m = Model(m)
+    except Exception as e:  # noqa
+        return {"err": type(e).__name__}
+    return {"response": None if m.response is None else m.response.term.name,
+            "common": [t.name for t in m.common_terms], "group": [t.name for t in m.group_terms]}
+
+
+def lookalikes(s, rng):
+    """strings that differ from `s` only in whitespace but are other token streams (a blank inside
+    a name, a number, `**`, a comparison, a back-quoted name) or the same one (all gaps removed)"""
+    out = ["".join(s.split())] if "`" not in s and "'" not in s and '"' not in s else []
+    pos = [i for i in range(1, len(s)) if s[i - 1] != " " and s[i] != " "]
+    for i in rng.sample(pos, min(4, len(pos))):
+        out.append(s[:i] + " " + s[i:])
+    if "  " not in s and " " in s:
+        out.append(s.replace(" ", "  "))
+    return out
+
+
+LOOKALIKE_BASES = ["y ~ ab + cd", "(a + b) ** 2", "y ~ f(x, k = 10)", "y ~ `a b` + c", "y ~ x1:z2",
+                   "y ~ f(x == 10) + (1 | gr)", "resp ~ 0.5:ab", "y ~ `ab` + `a b`", "y ~ f('a b', \"c\")"]
+
+
 # ------------------------------------------------------------------------------------------------
 # independent sentence generator: random trees, pretty-printed with minimal parentheses
 # ------------------------------------------------------------------------------------------------
@@ -456,4 +490,25 @@ def explore(tier, seed, res=None, replay=None):
                     res.failures.append({"case": {"s": base, "variant": v, "kind": "relation"},
                                          "impl": d1, "expected": d0,
                                          "why": "whitespace / redundant parentheses changed the model"})
+        # history: the public entry point reads every string from its own characters — a well-formed
+        # formula first, then look-alikes that differ from it by whitespace only, then it again
+        n_hist = 150 if tier == "quick" else 3000
+        bases = list(LOOKALIKE_BASES)
+        for i in range(n_hist):
+            f, _ = gen_formula(rng, rng.randrange(1, 4))
+            f = f.replace("a", rng.choice(["a", "ab", "a1"])).replace("c", rng.choice(["c", "cd", "10"]))
+            bases.append(rng.choice(["y ~ ", "yy ~ ", ""]) + f + rng.choice(["", " ** 2", " + (x1 | gr)"]))
+        for base in bases:
+            seq = [base] + lookalikes(base, rng) + [base]
+            res.evaluations += 1
+            res.count("kind:history")
+            for v in seq:
+                got, want = describe(v), describe_direct(v)
+                if got != want:
+                    res.failures.append({"case": {"history": seq[:seq.index(v) + 1], "s": v,
+                                                  "kind": "history"},
+                                         "impl": got, "expected": want,
+                                         "why": "model_description reads a string differently after "
+                                                "having read a look-alike (not from its own characters)"})
+                    break
     return res
